@@ -11,37 +11,37 @@ def hook_commits():
 CLAIMED = {
     "C06": dict(engine="chan-inline + chan-threads + tokio-receiver + file-e2e", design="5/C06",
         technique="deterministic simulation: seeded interleaving of sender operations with the real Receiver::exec under a scripted, fault-injecting processor; reference-queue oracle plus history checks",
-        text="Seeded exploration (not exhaustive) of interleavings x processor outcome sequences of the real emit_batcher channel on a virtual clock. Every first-attempt batch must equal the reference queue's hand-off, every retry must equal the returned remainder, and the whole history is re-checked for exactly-once / FIFO / accounted truncation. Exploration is the right level: the property is over schedules and fault sequences, which only sampling at this scale (10^5..10^7 runs) reaches with the real code.",
+        text="Seeded exploration (not exhaustive) of interleavings x processor outcome sequences of the real emit_batcher channel on a virtual clock. Every first-attempt batch must equal the reference queue's hand-off, every retry must equal the returned remainder, and the whole history is re-checked for exactly-once / FIFO / accounted truncation. Exploration is the right level: the property is over schedules and fault sequences, which only sampling at this scale (10^5..10^7 runs) reaches with the real code. Also: probes of the tokio-hosted receiver (emit_batcher::tokio::spawn) on real tokio threads judged by schedule-independent rules, idle stretches of 60-200 receiver polls, and receiver-side lock acquisitions that no hook announces as interleaving points.",
         note="Trusted: the reference queue model, the reduction argument that receiver-local steps commute with sender critical sections (so interleaving at lock hooks and processor/wait/watcher seams is complete for inline mode), the hook placement (one before_lock per acquisition of the channel state lock)."),
     "C07": dict(engine="chan-inline + chan-threads + tokio-receiver + file-e2e + otlp-delivery", design="5/C07",
         technique="deterministic simulation with fault injection; history check at the instant each flush reports completion",
-        text="Seeded exploration of flush requests (when_flushed, async flush) racing with hand-off, retries, failures, panics and truncation; a post-hoc check over the recorded history demands that at the completion event of every flush no item sent before the request is queued, in flight or awaiting retry.",
+        text="Seeded exploration of flush requests (when_flushed, async flush) racing with hand-off, retries, failures, panics and truncation; a post-hoc check over the recorded history demands that at the completion event of every flush no item sent before the request is queued, in flight or awaiting retry. Also: the tokio-hosted receiver on real tokio threads with tokio::flush / blocking_flush from plain threads and runtimes (flush true only when everything sent before has finished).",
         note="Trusted: event sequence numbers are assigned by the single simulator thread; flushes completing at or after an injected receiver teardown carry no obligation (statement: while the receiver is alive)."),
     "C08": dict(engine="chan-inline + chan-threads + calling-contexts + tokio-receiver + file-e2e + otlp-delivery", design="5/C08",
         technique="deterministic simulation with fault injection; bounded-liveness and exactly-once-callback oracles on a virtual clock",
-        text="Seeded exploration of processor outcome scripts (ok, permanent failure, retry with any remainder, panic in call or future, latency), panicking watchers, early sender drop; oracles: bounded attempts, non-decreasing bounded back-off reset per batch, callbacks exactly once, receiver drains and terminates within a step budget once the sender is dropped.",
+        text="Seeded exploration of processor outcome scripts (ok, permanent failure, retry with any remainder, panic in call or future, latency), panicking watchers, early sender drop; oracles: bounded attempts, non-decreasing bounded back-off reset per batch, callbacks exactly once, receiver drains and terminates within a step budget once the sender is dropped. Also: the tokio-hosted receiver on real tokio threads (termination on sender drop, flush and lossless sends succeed within a minute), idle stretches long enough for the idle back-off to sit at its cap for dozens of polls.",
         note="Trusted: step budget (2500 controller steps after close) is generous relative to the retry budget; retuned constants do not alarm (bounds are 64 attempts / 5 min)."),
     "C09": dict(engine="chan-inline + chan-threads + calling-contexts + tokio-receiver + file-e2e + otlp-delivery", design="5/C09",
         technique="deterministic simulation; reference-queue oracle compared with a state snapshot after every operation; lock-held-at-seam detector",
-        text="Seeded exploration with small capacities, stalled / absent receivers and all send variants; after every operation the real queue length (snapshot hook and queue_length metric) must equal the reference queue and never exceed capacity; overflow keeps the newest item and counts once; try_send / async send hand the same item back, and only at or after expiry.",
+        text="Seeded exploration with small capacities, stalled / absent receivers and all send variants; after every operation the real queue length (snapshot hook and queue_length metric) must equal the reference queue and never exceed capacity; overflow keeps the newest item and counts once; try_send / async send hand the same item back, and only at or after expiry. Also: a blocking send that starts a wait past its deadline is a violation of this property too (hand back when the timeout expires).",
         note="Trusted: verif_snapshot() reads the same fields the channel uses; virtual-time expiry comparisons are exact."),
 }
 
 CLAIMED.update({
     "C10": dict(engine="fsim-faults + fsim-realfs + file-e2e", design="5/C10", level="fault_enumeration",
         technique="deterministic simulation with fault injection: per generated batch history, every filesystem call index x every fault kind (error, EINTR, short/zero/torn write, crash before/after/mid-write with crash-recovery variants) plus sampled multi-fault sequences, against a durable-view oracle",
-        text="For each seeded batch history the real emit_file worker runs over an in-memory filesystem that separates written from synced content and volatile from durable directory entries. One fault-free pass counts the calls (strict oracle), then a single fault of every applicable kind is injected at every call index (exhaustive over single faults for that history), then 2-4-fault sequences are sampled. After every acknowledged batch each event must be a complete record in what the worst-case crash would leave; after every call and crash every record of every file must be an event, empty, or a truncated prefix ending exactly where a write was interrupted. Fault enumeration per sampled history is the right level: the property quantifies over call index x fault kind, which is finite per history and is covered completely; histories themselves are sampled.",
+        text="For each seeded batch history the real emit_file worker runs over an in-memory filesystem that separates written from synced content and volatile from durable directory entries. One fault-free pass counts the calls (strict oracle), then a single fault of every applicable kind is injected at every call index (exhaustive over single faults for that history), then 2-4-fault sequences are sampled. After every acknowledged batch each event must be a complete record in what the worst-case crash would leave; after every call and crash every record of every file must be an event, empty, or a truncated prefix ending exactly where a write was interrupted. Fault enumeration per sampled history is the right level: the property quantifies over call index x fault kind, which is finite per history and is covered completely; histories themselves are sampled. The end-to-end engine builds its file sets with the production FileSetBuilder::spawn (filesystem, clock and rng injected through a hook), starts a third of its reuse runs over a directory holding a leftover file of an earlier run (clean or torn tail), and the real-filesystem differential runs a third of its reuse plans with two live writers over one template.",
         note="Trusted: the filesystem model (a directory entry is durable only after sync_parent; un-synced suffixes may be lost in any part; deletions not followed by a directory sync may be undone); the harness re-submits a retry remainder like the channel does, a bounded number of times; events whose file the set's own retention deleted are exempt from the durability claim. StdFilesystem and real disks are not exercised under faults (fsim-realfs under C11 compares the model with them fault-free)."),
     "C11": dict(engine="fsim-rolling + fsim-realfs + file-e2e", design="5/C11",
         technique="deterministic simulation: generated configurations x directory contents x clock trajectories x batch histories with restarts, real worker against a reference rolling policy and the filesystem call log",
-        text="Seeded exploration of configurations (templates with dotted / sibling-extended prefixes, roll interval, max_files 1..6/32, size limits, reuse), pre-existing directory contents (own files of earlier runs, sibling sets, strangers), clock trajectories (zero, forward, period-crossing, backward) and batch histories with restarts and overflow-built batches. A reference policy decides per batch whether a new file must start; the call log is checked for exactly one file written, strict name grammar with the period and counter of the clock reading, retention bound and order, no panic, and no touch of any file outside the set.",
+        text="Seeded exploration of configurations (templates with dotted / sibling-extended prefixes, roll interval, max_files 1..6/32, size limits, reuse), pre-existing directory contents (own files of earlier runs, sibling sets, strangers), clock trajectories (zero, forward, period-crossing, backward) and batch histories with restarts and overflow-built batches. A reference policy decides per batch whether a new file must start; the call log is checked for exactly one file written, strict name grammar with the period and counter of the clock reading, retention bound and order, no panic, and no touch of any file outside the set. In the fault-free rolling runs the clock moves on after every reading by the worker (0 to 3601 s per reading, per run): period and counter of a new name must come from one reading.",
         note="Trusted: the reference rolling policy and the strict name grammar (prefix.period.counter.id.ext with period of any of the three roll shapes); order-related rules apply only while the generated clock never steps back. The fsim-realfs engine additionally executes each generated plan over the production StdFilesystem in a scratch directory and demands byte-identical directory contents and batch outcomes after every step, so the filesystem model the verdicts rest on is itself checked against the real thing (fault-free only)."),
 })
 
 CLAIMED.update({
     "C03": dict(engine="ctx-frames", design="5/C03",
         technique="deterministic simulation: generated frame programs executed as tasks polled one poll at a time on seeded lanes (real OS threads, real thread-locals) with injected panics and cancellations, against a stack-of-maps reference",
-        text="Seeded exploration of well-nested programs over the real Frame / ThreadLocalCtxt / erased-context API (push/root/disabled/current x enter/with/call/in_fn/in_future, re-entry, frames created in one place and entered in another, two isolated context instances plus the shared one), split over 1-4 tasks on 1-3 lanes plus hand-off threads. The seed decides which task is polled on which lane, where panics unwind and which suspended task is cancelled. At every observe point on every thread with_current must equal the innermost active frame of that strand; after every poll, cancellation, caught panic and thread exit every lane's ambient state must be empty for every context instance.",
+        text="Seeded exploration of well-nested programs over the real Frame / ThreadLocalCtxt / erased-context API (push/root/disabled/current x enter/with/call/in_fn/in_future, re-entry, frames created in one place and entered in another, two isolated context instances plus the shared one), split over 1-4 tasks on 1-3 lanes plus hand-off threads. The seed decides which task is polled on which lane, where panics unwind and which suspended task is cancelled. At every observe point on every thread with_current must equal the innermost active frame of that strand; after every poll, cancellation, caught panic and thread exit every lane's ambient state must be empty for every context instance. Contexts are also reached through AssertInternal, AssertInternal<Option<..>> and Box.",
         note="Trusted: the stack-of-maps reference; keys are distinct within one frame (the statement's quantifier); programs are well nested by construction."),
 })
 
@@ -52,29 +52,29 @@ CLAIMED.update({
         note="Trusted: the interpreter's tree bookkeeping; the counter rng never repeats; cancellation is excluded here (a cancelled async span completes outside its frame; C05 covers it and asserts no ids)."),
     "C05": dict(engine="ctx-spans-completion", design="5/C05",
         technique="deterministic simulation: generated guard-operation sequences and macro span forms with injected exit paths (Err, panic, early completion, cancellation) under scripted clocks (forward, equal, backwards, unavailable)",
-        text="Seeded exploration of operation sequences on manual SpanGuards (with_mdl/with_name/with_props/map_props/with_completion/start repeated/complete/complete_with/drop) with uniform erased types so any order type-checks, plus all macro forms (span attribute on sync/async/Result functions, guard parameter, ok_lvl/err_lvl/panic_lvl, new_span!) and exit paths. Oracle: completions per guard = 1 iff enabled and started, is_enabled and returned bools agree with the model after every operation, extent = range [reading at start, reading at completion] attributed through a per-strand clock log (also when it runs backwards), name/module/props/completion as last set, panic adds err and the panic level.",
+        text="Seeded exploration of operation sequences on manual SpanGuards (with_mdl/with_name/with_props/map_props/with_completion/start repeated/complete/complete_with/drop) with uniform erased types so any order type-checks, plus all macro forms (span attribute on sync/async/Result functions, guard parameter, ok_lvl/err_lvl/panic_lvl, new_span!) and exit paths. Oracle: completions per guard = 1 iff enabled and started, is_enabled and returned bools agree with the model after every operation, extent = range [reading at start, reading at completion] attributed through a per-strand clock log (also when it runs backwards), name/module/props/completion as last set, panic adds err and the panic level. Explicit completions whose receiver (emitter or completion) panics after seeing the span must not complete again while the guard unwinds.",
         note="Trusted: the guard model; clock readings are attributed to strands through a thread-local set at every poll."),
     "C18": dict(engine="ctx-spans-traceparent", design="5/C18",
         technique="deterministic simulation: generated span trees over the real emit_traceparent runtime pieces with a scripted sampler, incoming headers, header propagation to fresh tasks, hand-offs and seeded interleavings",
-        text="Seeded exploration over TraceparentCtxt<ThreadLocalCtxt> + TraceparentFilter with a scripted per-root sampler decision (optionally and in_sampled_trace_filter): the sampler log must show exactly one call per new trace at its root and none for children or continued traces; unsampled traces record no span (and no event with the sampled-trace filter) and report an unsampled traceparent; in sampled traces Traceparent::current() = (trace id, innermost span id, sampled) at every observation on every thread/task, a formatted header parsed and pushed in a fresh task makes its first span a child of the caller's span, and the previous traceparent is restored after every exit, suspend and panic (checked on every lane after every poll).",
+        text="Seeded exploration over TraceparentCtxt<ThreadLocalCtxt> + TraceparentFilter with a scripted per-root sampler decision (optionally and in_sampled_trace_filter): the sampler log must show exactly one call per new trace at its root and none for children or continued traces; unsampled traces record no span (and no event with the sampled-trace filter) and report an unsampled traceparent; in sampled traces Traceparent::current() = (trace id, innermost span id, sampled) at every observation on every thread/task, a formatted header parsed and pushed in a fresh task makes its first span a child of the caller's span, and the previous traceparent is restored after every exit, suspend and panic (checked on every lane after every poll). Spans with an explicit span_id among their own properties (typed, hex text, integer) are part of the trees.",
         note="Trusted: the interpreter's tree bookkeeping; thread/task hand-offs use Frame::current(rt.ctxt()), the documented way to carry ambient context."),
 })
 
 CLAIMED.update({
     "C20": dict(engine="slot-miri", design="5/C20", cmd="c20",
         technique="deterministic simulation under miri's seeded scheduler: racing initialisers and observers over a fresh AmbientSlot, one miri seed = one exact schedule, with weak-memory emulation and data-race detection",
-        text="A small program races 2-4 initialisers (try_init_slot, and one init_slot under catch_unwind) with 1-3 observers that read the five components, emit an event and open a span through slot.get() and flush, each component of configuration i tagged i. Run under cargo miri with many seeds x several preemption rates x workload shapes from VERIF_SEED; miri interprets the real OnceLock and the unsafe cast in AmbientSlot::get and preempts at basic-block granularity. Oracle: exactly one attempt wins, losers fail in their documented way and never receive an event or a filter call, nothing is observed before initialisation, once any thread has seen the slot enabled every later observation on every thread shows all five components of the winner together, no data race or UB.",
+        text="A small program races 2-4 initialisers (try_init_slot, and one init_slot under catch_unwind) with 1-3 observers that read the five components, emit an event and open a span through slot.get() and flush, each component of configuration i tagged i. Run under cargo miri with many seeds x several preemption rates x workload shapes from VERIF_SEED; miri interprets the real OnceLock and the unsafe cast in AmbientSlot::get and preempts at basic-block granularity. Oracle: exactly one attempt wins, losers fail in their documented way and never receive an event or a filter call, nothing is observed before initialisation, once any thread has seen the slot enabled every later observation on every thread shows all five components of the winner together, no data race or UB. For every slot kind half of the workloads start with a sibling slot already initialised, and one initialiser in three initialises from inside the setup: of a #[span] function, whose span must then go through the winning runtime.",
         note="Trusted: miri's scheduler/weak-memory model as a stand-in for OS schedules; leak check off because the slot is leaked for 'static; -Zmiri-many-seeds aborts remaining seeds at the first failure."),
 })
 
 CLAIMED.update({
     "C12": dict(engine="otlp-delivery", design="5/C12",
         technique="deterministic simulation with fault injection: the real Otlp emitter (hyper, h2, gzip) over in-memory streams against a scripted collector on a simulated executor and virtual clock; collector-side history oracle",
-        text="Seeded exploration of event streams (incl. 100-300 KiB payloads so a batch spans several size-limited requests), transports (HTTP/JSON, HTTP/protobuf, gRPC; gzip on/off), signal subsets on distinct simulated hosts, and per-request collector behaviour (ack, slow ack, 4xx/5xx or non-zero grpc-status, close before / after reading, reset mid-body, stall until the 30 s client timeout, refused connections, one host down forever), with the client thread (emit, blocking_flush, drop) interleaved with the worker by the baton scheduler. The collector log decides: every emitted event in an acknowledged request once a flush returned true or the emitter was dropped and its worker terminated; exactly one request when nothing failed; a failed request is followed by the same events, not before the back-off, on a new connection if the transport broke; an outage of one signal does not delay the others.",
+        text="Seeded exploration of event streams (incl. 100-300 KiB payloads so a batch spans several size-limited requests), transports (HTTP/JSON, HTTP/protobuf, gRPC; gzip on/off), signal subsets on distinct simulated hosts, and per-request collector behaviour (ack, slow ack, 4xx/5xx or non-zero grpc-status, close before / after reading, reset mid-body, stall until the 30 s client timeout, refused connections, one host down forever), with the client thread (emit, blocking_flush, drop) interleaved with the worker by the baton scheduler. The collector log decides: every emitted event in an acknowledged request once a flush returned true or the emitter was dropped and its worker terminated; exactly one request when nothing failed; a failed request is followed by the same events, not before the back-off, on a new connection if the transport broke; an outage of one signal does not delay the others. Collector answers carry bodies and grpc-message values of every kind (long, multi-byte at every alignment, binary, percent-encoded, raw non-ASCII); the collector's promise of at most five failures in a row holds per batch also when batches are split; one event in ten is emitted from inside the formatting of another.",
         note="Trusted: the scripted collector and marker extraction (markers survive both encodings verbatim); faults stop inside the retry budget (at most 6 consecutive failures per signal); timers only fire when nothing is runnable (no artificial starvation of the worker against the 30 s request timeout). TLS and real sockets are not exercised."),
     "C14": dict(engine="otlp-routing", design="5/C14",
         technique="deterministic simulation: observation at the collector endpoints after worker, transport and retries, over all eight signal subsets incl. outage configurations; event shapes by seeded generation against a reference routing function",
-        text="Events over kind {none, span, metric, unknown} x extent {none, point, range} x metric value {number, numeric sequence, text, missing} through all eight subsets of configured signals, fault-free and with collector faults / a dead host. Each marker must only ever appear at the endpoint a 10-line reference routing function names, and event_discarded must equal the number of unroutable events. The event-shape dimension is ordinary seeded generation; simulation contributes the observation point (what the collector endpoints actually receive, including retried requests) and the outage configurations.",
+        text="Events over kind {none, span, metric, unknown} x extent {none, point, range} x metric value {number, numeric sequence, text, missing} through all eight subsets of configured signals, fault-free and with collector faults / a dead host. Each marker must only ever appear at the endpoint a 10-line reference routing function names, and event_discarded must equal the number of unroutable events. The event-shape dimension is ordinary seeded generation; simulation contributes the observation point (what the collector endpoints actually receive, including retried requests) and the outage configurations. Span events carry ids typed, as text, partially, not at all or unparsable; one event in ten is emitted from inside the formatting of another (a panic out of Otlp::emit is a violation).",
         note="Trusted: the reference routing function; the caveat in DESIGN.md section 5/C14 (the routing choice itself is schedule-independent)."),
 })
 
